@@ -172,30 +172,104 @@ pub fn k_replay_set_text_lines() {
 #[cfg(kani)]
 pub fn k_replay_set_text_lines() {}
 
-/// update_currency natively: (0 = a currency code, 1 = an alias, 2 = an unknown name; the new rate): success exactly for
-/// known names, afterwards the rate table differs from the old one at exactly that currency
+/// update_currency natively: (0 = currency codes, 1 = aliases, 2 = an unknown name; the new rate): for EVERY configured
+/// code / alias on a fresh calculator: success, and afterwards the rate table differs from the old one at exactly that
+/// currency, where it holds the new rate; an unknown name fails and changes nothing
 #[cfg(not(kani))]
 pub fn k_replay_update_currency() {
     let kind: u8 = vany(); let rate: f64 = vany();
     vassume(kind <= 2);
-    let mut calc = crate::SmartCalc::default();
-    let (name, target) = {
+    let names: Vec<(String, Option<Rc<CurrencyInfo>>)> = {
+        let calc = crate::SmartCalc::default();
         let cfg = crate::smartcalc::verif_k_local::config_of(&calc);
         match kind {
-            0 => ("EUR".to_string(), cfg.currency.get("eur").cloned()),
-            1 => { let (k, v) = cfg.currency_alias.iter().next().expect("an alias"); (k.to_uppercase(), Some(v.clone())) }
-            _ => ("zzzz".to_string(), None),
+            0 => cfg.currency.iter().map(|(k, v)| (k.to_uppercase(), Some(v.clone()))).collect(),
+            1 => cfg.currency_alias.iter().map(|(k, v)| (k.to_uppercase(), Some(v.clone()))).collect(),
+            _ => alloc::vec![("zzzz".to_string(), None)],
         }
     };
-    let before: Vec<(String, f64)> = crate::smartcalc::verif_k_local::config_of(&calc).currency_rate.iter().map(|(k, v)| (k.code.clone(), *v)).collect();
-    let ok = calc.update_currency(&name, rate);
-    assert!(ok == target.is_some());
-    let cfg = crate::smartcalc::verif_k_local::config_of(&calc);
-    for (code, old) in before.iter() {
-        let now = cfg.currency_rate.iter().find(|(k, _)| &k.code == code).map(|(_, v)| *v).expect("rate kept");
-        match &target { Some(t) if &t.code == code => assert!(now == rate || (now.is_nan() && rate.is_nan())), _ => assert!(now == *old) }
+    for (name, target) in names.iter() {
+        let mut calc = crate::SmartCalc::default();
+        let before: Vec<(String, f64)> = crate::smartcalc::verif_k_local::config_of(&calc).currency_rate.iter().map(|(k, v)| (k.code.clone(), *v)).collect();
+        let ok = calc.update_currency(name, rate);
+        assert!(ok == target.is_some());
+        let cfg = crate::smartcalc::verif_k_local::config_of(&calc);
+        for (code, old) in before.iter() {
+            let now = cfg.currency_rate.iter().find(|(k, _)| &k.code == code).map(|(_, v)| *v).expect("rate kept");
+            match target { Some(t) if &t.code == code => assert!(now == rate || (now.is_nan() && rate.is_nan())), _ => assert!(now == *old) }
+        }
+        if let Some(t) = target { assert!(cfg.currency_rate.iter().any(|(k, v)| k.code == t.code && (*v == rate || rate.is_nan()))); }
     }
-    if let Some(t) = &target { assert!(cfg.currency_rate.iter().any(|(k, v)| k.code == t.code && (*v == rate || rate.is_nan()))); }
 }
 #[cfg(kani)]
 pub fn k_replay_update_currency() {}
+
+/// one API rule with two patterns natively: it declines its first pattern's match and accepts the second's
+#[cfg(not(kani))]
+pub fn k_replay_api_rule2() {
+    use crate::{RuleTrait, SmartCalc, SmartCalcConfig};
+    struct Two;
+    impl RuleTrait for Two {
+        fn name(&self) -> String { "two".to_string() }
+        fn call(&self, _: &SmartCalcConfig, fields: &alloc::collections::BTreeMap<String, TokenType>) -> Option<TokenType> {
+            match fields.get("m") { Some(TokenType::Number(m, _)) => Some(TokenType::Number(m + 100.0, NumberType::Decimal)), _ => None }
+        }
+    }
+    let mut calc = SmartCalc::default();
+    assert!(calc.add_rule("en".to_string(), alloc::vec!["{NUMBER:n} foo".to_string(), "foo {NUMBER:m}".to_string()], Rc::new(Two)));
+    let r = calc.execute("en", "1 foo 2");
+    let out = match &r.lines[0] { Some(l) => match &l.result { Ok(x) => x.output.clone(), Err(e) => e.clone() }, None => String::new() };
+    assert!(out == "103");
+}
+#[cfg(kani)]
+pub fn k_replay_api_rule2() {}
+
+/// history independence of unit conversion natively: a user-defined family with an offset step; the same conversion
+/// must give the same answer whatever was converted before on the same calculator
+#[cfg(not(kani))]
+pub fn k_replay_unit_history() {
+    let mk = || {
+        let mut calc = crate::SmartCalc::default();
+        calc.set_decimal_seperator(".".to_string());
+        calc.set_thousand_separator(",".to_string());
+        assert!(calc.add_dynamic_type("temp"));
+        assert!(calc.add_dynamic_type_item("temp", 1, "{value} C", alloc::vec!["{NUMBER:value} celsius"], "{value} + 273", "{value}", alloc::vec!["celsius".to_string()], None, None, None));
+        assert!(calc.add_dynamic_type_item("temp", 2, "{value} K", alloc::vec!["{NUMBER:value} kelvin"], "{value}", "{value} - 273", alloc::vec!["kelvin".to_string()], None, None, None));
+        calc
+    };
+    let out = |r: &crate::smartcalc::ExecuteResult| match &r.lines[0] { Some(l) => match &l.result { Ok(x) => x.output.clone(), Err(e) => e.clone() }, None => String::new() };
+    let fresh = mk();
+    let want = out(&fresh.execute("en", "20 celsius to kelvin"));
+    let used = mk();
+    let _ = used.execute("en", "100 celsius to kelvin");
+    let got = out(&used.execute("en", "20 celsius to kelvin"));
+    assert!(got == want);
+    let used2 = mk();
+    let _ = used2.execute("en", "7 kelvin to celsius");
+    let got2 = out(&used2.execute("en", "20 celsius to kelvin"));
+    assert!(got2 == want);
+}
+#[cfg(kani)]
+pub fn k_replay_unit_history() {}
+
+/// a user-defined unit natively: (the amount is held by a variable): '12 foo to bar' / 'amount = 12' + 'amount foo to bar'
+#[cfg(not(kani))]
+pub fn k_replay_unit_recognition() {
+    let by_var: u8 = vany();
+    let mut calc = crate::SmartCalc::default();
+    calc.set_decimal_seperator(".".to_string());
+    calc.set_thousand_separator(",".to_string());
+    assert!(calc.add_dynamic_type("fam"));
+    assert!(calc.add_dynamic_type_item("fam", 1, "{value} foo", alloc::vec!["{NUMBER:value} foo"], "{value} / 2", "{value}", alloc::vec!["foo".to_string()], None, None, None));
+    assert!(calc.add_dynamic_type_item("fam", 2, "{value} bar", alloc::vec!["{NUMBER:value} bar"], "{value}", "{value} * 2", alloc::vec!["bar".to_string()], None, None, None));
+    let out = |r: &crate::smartcalc::ExecuteResult, i: usize| match &r.lines[i] { Some(l) => match &l.result { Ok(x) => x.output.clone(), Err(e) => e.clone() }, None => String::new() };
+    let direct = calc.execute("en", "12 foo to bar");
+    let want = out(&direct, 0);
+    assert!(want == "6 bar");
+    if by_var == 1 {
+        let r = calc.execute("en", "amount = 12\namount foo to bar");
+        assert!(out(&r, 1) == want);
+    }
+}
+#[cfg(kani)]
+pub fn k_replay_unit_recognition() {}
